@@ -144,7 +144,7 @@ def _c13():
 
 def _c04():
     class_c, mapping_c, mf = _names()
-    return (ENC_PRIM + ENC_TABLE[:5] + [FRM + '_marshal', FRM + 'marshal', FRM + '_marshal_content_body_frame',
+    return (ENC_PRIM + ENC_TABLE[:6] + [FRM + '_marshal', FRM + 'marshal', FRM + '_marshal_content_body_frame',
                         'pamqp.header.ProtocolHeader.marshal', 'pamqp.heartbeat.Heartbeat.marshal',
                         'pamqp.body.ContentBody.marshal']
             + class_c.names('marshal') + mf.names('marshal_method_frame') + mf.names('frame_marshal')
@@ -203,8 +203,9 @@ def _c08():
 
 
 ENC_TABLE = [ENC + n for n in ('field_array', 'field_table', 'encode_table_value', 'table_integer',
-                               '_deprecated_table_integer', 'decimal')]
-DEC_TABLE = [DEC + n for n in ('embedded_value', 'field_table', 'field_table(t)', 'field_array', 'field_array(t)', 'decimal')]
+                               '_deprecated_table_integer', 'timestamp', 'decimal')]
+DEC_TABLE = [DEC + n for n in ('embedded_value', 'field_table', 'field_table(t)', 'field_array', 'field_array(t)', 'decimal',
+                               'timestamp')]
 
 
 TABLE_CLAUSES = {'no-table', 'empty-table', 'table', 'table-with-unencodable-content'}
@@ -286,7 +287,8 @@ PROPS = {
                     assumptions=['I6: a decoding step is one loop iteration or one call of a decode/unmarshal function; '
                                  'wall-clock time and resident memory are not objects a contract can mention',
                                  'loops over the concrete argument / property lists terminate by construction (unrolled or cut)']),
-    'C19': PropSpec('C19', contracts=_c19(), floor=1000),
+    'C19': PropSpec('C19', contracts=_c19(), floor=1000,
+                    extra=lambda tier, rng: __import__('props.bounded', fromlist=['x']).mapping_protocol('C19', tier, rng)),
     'C13': PropSpec('C13', contracts=_c13(), ground=['C13.name-character-class'], floor=800,
                     assumptions=['I5: typed domains; None in a validated field is outside the domain (validation skips None by design)']),
     'C04': PropSpec('C04', contracts=_c04(), lemmas=[], ground=['C18.heartbeat-constant'], floor=2000),
